@@ -24,19 +24,32 @@ def _discharge(ob, tier):
     tmo = 10000 if tier == 'quick' else 60000
     q = ob.query()
     t0 = time.time()
-    fr = smt.check_forked(q, tmo, want_model=True)
-    v = smt.Verdict(fr['status'], 'z3', fr['seconds'], reason=fr.get('reason', ''))
-    res = {'status': v.status, 'backend': v.backend, 'seconds': round(v.seconds, 4), 'reason': v.reason, 'model': fr.get('model')}
-    if v.status == 'unknown':
+    # portfolio: z3 briefly, then cvc5 with the full budget, then z3 with the full budget
+    fr = smt.check_forked(q, min(tmo, 2500), want_model=True)
+    res = {'status': fr['status'], 'backend': 'z3', 'seconds': round(fr['seconds'], 4), 'reason': fr.get('reason', ''),
+           'model': fr.get('model')}
+    if fr['status'] == 'unknown':
         try:
             c = smt.check_cvc5(q, tmo)
             res['cvc5'] = {'status': c.status, 'seconds': round(c.seconds, 3), 'reason': c.reason[:200]}
-            if c.status in ('sat', 'unsat'):
-                res['status'] = c.status
-                res['backend'] = 'cvc5'
-                res['seconds'] = round(v.seconds + c.seconds, 4)
         except Exception as e:
+            c = None
             res['cvc5'] = {'status': 'error', 'reason': str(e)[:200]}
+        if c is not None and c.status in ('sat', 'unsat'):
+            res['status'] = c.status
+            res['backend'] = 'cvc5'
+            res['seconds'] = round(fr['seconds'] + c.seconds, 4)
+            if c.status == 'sat':
+                fr2 = smt.check_forked(q, tmo, want_model=True)      # try to get a counter-model from z3
+                if fr2['status'] == 'sat':
+                    res['model'] = fr2.get('model')
+        else:
+            fr2 = smt.check_forked(q, tmo, want_model=True)
+            res['seconds'] = round(time.time() - t0, 4)
+            if fr2['status'] in ('sat', 'unsat'):
+                res['status'] = fr2['status']
+                res['model'] = fr2.get('model')
+            res['reason'] = fr2.get('reason', '')
     elif tier == 'thorough' and ob.kind != 'cover':
         try:
             c = smt.check_cvc5(q, tmo)
@@ -335,6 +348,7 @@ def report(prop_id, tier, seed, results, mod, a, t0, write=True, extra=None):
             'by_backend': by_backend,
             'by_kind': {k: sum(1 for o in all_obs if o['kind'] == k) for k in sorted(set(o['kind'] for o in all_obs))},
             'solver_time_s': solver_time,
+            'slowest': [[o['id'], o['seconds'], o['backend']] for o in sorted(all_obs, key=lambda o: -o['seconds'])[:5]],
             'refuted': len(refuted),
             'known_finding_matches': {kid: len(v[1]) for kid, v in kf_hits.items()},
             'undecided': len(unknown) + len(undecided),
